@@ -1,8 +1,9 @@
 /-
   PygModel.PerDict — model of `pyg_base._perdictable`: `_item` (lines 63-107), `join` (110-211),
   `_join_dictable_with_defaults` (19-61) and `perdictable._value_output` (297-342) for a function
-  without `.output`, `renames = None`, `if_none = False`, `output_is_input = True`,
-  `include_inputs = False`.  Built on the `join` / `xor` of PygModel/Join.lean (`d1 * d2`, `d1 / d2`).
+  without `.output`, `if_none` ∈ {False, True}, `output_is_input = True`, `include_inputs = False`;
+  `renames` = `None` or a dict parameter → column (`pdJoinR`, `perdictableR`: the renaming
+  `d[key] = d[renames[key]]` of lines 85-92 is a pass over the inputs before `join` proper).  Built on the `join` / `xor` of PygModel/Join.lean (`d1 * d2`, `d1 / d2`).
 
   The lifted function is abstract: `f : List Cell → Val` receives the values of its declared
   parameters; the model returns the result together with the *log* of calls of `f`, in call order.
@@ -130,6 +131,36 @@ def Table.sortOn (t : Table) (on : List String) : Res Table :=
       .tuple [.dict (sel.map fun c => (c.1, .cell (c.2.getD i .none)))]
     pure (t.gatherRows (sortIdx keys))
 
+/-- lines 202-209 of `join`: the table inputs (after `_item`) reduced to one table — `tbl1` = product
+of the tables without default, `tbl_def2` = outer join of the tables with default, then
+`_join_dictable_with_defaults((tbl1, {}), tbl_def2)`.  `defaults`: already restricted to the inputs. -/
+def joinTables (tables : List (String × Table)) (defaults : List (String × Cell)) :
+    Option (Res (Option Table)) :=
+  let isDef (k : String) : Bool := (defaults.map (·.1)).contains k
+  let noDef := (tables.filter fun kv => !isDef kv.1).map (·.2)
+  let withDef : List TblDef := (tables.filter fun kv => isDef kv.1).map fun kv =>
+    (some kv.2, defaults.filter fun d => d.1 == kv.1)
+  -- tbl1 = reducer(mul, no_defaults.values())
+  let tbl1 : Option (Res (Option Table)) := match noDef with
+    | [] => some (.ok none)
+    | d :: ds => match foldOR Table.mul d ds with
+      | some (.ok t) => some (.ok (some t))
+      | some (.error e) => some (.error e)
+      | none => none
+  -- tbl_def2 = reducer(_join_dictable_with_defaults, pairs, (None, None))
+  let tblDef2 : Option (Res TblDef) := match withDef with
+    | [] => some (.ok (none, []))
+    | p :: ps => foldOR joinDef p ps
+  match tbl1, tblDef2 with
+  | some (.ok t1), some (.ok td2) =>
+    match joinDef (t1, []) td2 with
+    | some (.ok (r, _)) => some (.ok r)
+    | some (.error e) => some (.error e)
+    | none => none
+  | some (.error e), _ => some (.error e)
+  | _, some (.error e) => some (.error e)
+  | _, _ => none
+
 /-- `join(inputs, on, defaults)` (lines 195-211); `inputs` in dict order.
 `none`: a step the model does not cover (never for generated inputs). -/
 def pdJoin (inputs : List (String × PInput)) (on : List String) (defaults : List (String × Cell)) :
@@ -148,31 +179,11 @@ def pdJoin (inputs : List (String × PInput)) (on : List String) (defaults : Lis
       | .table d => some (kv.1, d)
       | .scalar _ => none
     if tables.isEmpty then some (.ok (scalars.map fun kv => (kv.1, [kv.2]))) else
-    let isDef (k : String) : Bool := (defaults.map (·.1)).contains k
-    let noDef := (tables.filter fun kv => !isDef kv.1).map (·.2)
-    let withDef : List TblDef := (tables.filter fun kv => isDef kv.1).map fun kv =>
-      (some kv.2, defaults.filter fun d => d.1 == kv.1)
-    -- tbl1 = reducer(mul, no_defaults.values())
-    let tbl1 : Option (Res (Option Table)) := match noDef with
-      | [] => some (.ok none)
-      | d :: ds => match foldOR Table.mul d ds with
-        | some (.ok t) => some (.ok (some t))
-        | some (.error e) => some (.error e)
-        | none => none
-    -- tbl_def2 = reducer(_join_dictable_with_defaults, pairs, (None, None))
-    let tblDef2 : Option (Res TblDef) := match withDef with
-      | [] => some (.ok (none, []))
-      | p :: ps => foldOR joinDef p ps
-    match tbl1, tblDef2 with
-    | some (.ok t1), some (.ok td2) =>
-      match joinDef (t1, []) td2 with
-      | some (.ok (some d, _)) => some ((d.setConsts scalars).sortOn on)
-      | some (.ok (none, _)) => none
-      | some (.error e) => some (.error e)
-      | none => none
-    | some (.error e), _ => some (.error e)
-    | _, some (.error e) => some (.error e)
-    | _, _ => none
+    match joinTables tables defaults with
+    | some (.ok (some d)) => some ((d.setConsts scalars).sortOn on)
+    | some (.ok none) => none
+    | some (.error e) => some (.error e)
+    | none => none
 
 /-! ### `perdictable(f, on = …, defaults = …)(**inputs)` -/
 
@@ -191,21 +202,29 @@ def runExpiry (today : Int) : Cell → Bool
   | .dt us => us ≥ today
   | _ => true
 
-/-- the row loop of line 336: returns the values and the log of calls -/
-def evalRows (f : List Cell → Val) (params : List String) (ds : Table) (hasData : Bool) (today : Int) :
-    List Nat → List Val × List (List Cell)
+/-- `is_none` -/
+def Cell.isNone : Cell → Bool
+  | .none => true
+  | _ => false
+
+/-- the row loop of line 336: returns the values and the log of calls.  `run_if_none` (lines 321-327)
+is all-True without a `data` column, else all-False for `if_none = False` and `is_none(data)` for
+`if_none = True` -/
+def evalRows (ifNone : Bool) (f : List Cell → Val) (params : List String) (ds : Table) (hasData : Bool)
+    (today : Int) : List Nat → List Val × List (List Cell)
   | [] => ([], [])
   | i :: is =>
-    let rest := evalRows f params ds hasData today is
-    if !hasData || runExpiry today (ds.jcellAt "expiry" i) then
+    let rest := evalRows ifNone f params ds hasData today is
+    if !hasData || (ifNone && (ds.jcellAt "data" i).isNone) || runExpiry today (ds.jcellAt "expiry" i) then
       let args := rowArgs ds params i
       (f args :: rest.1, args :: rest.2)
     else (.cell (ds.jcellAt "data" i) :: rest.1, rest.2)
 
 /-- `_value_output` (lines 297-342).  `inputs`: the keyword arguments in call order (possibly
-including `data`), `expiry`: the `expiry` argument (`scalar none` when omitted). -/
+including `data`), `expiry`: the `expiry` argument (`scalar none` when omitted), `ifNone`: the
+`if_none` attribute (False / True). -/
 def perdictable (f : List Cell → Val) (params on : List String) (defaults : List (String × Cell))
-    (inputs : List (String × PInput)) (expiry : PInput) (today : Int) :
+    (inputs : List (String × PInput)) (expiry : PInput) (today : Int) (ifNone : Bool := false) :
     Option (Res (PResult × List (List Cell))) :=
   let inputs' := inputs ++ [("expiry", expiry)]
   -- lines 306-308: `data` and `expiry` always have the default None
@@ -223,10 +242,49 @@ def perdictable (f : List Cell → Val) (params on : List String) (defaults : Li
       some (.ok (.value (f args), [args]))
     else
       let hasData := ds.cols.contains "data"
-      let (values, log) := evalRows f params ds hasData today (List.range ds.nrows)
+      let (values, log) := evalRows ifNone f params ds hasData today (List.range ds.nrows)
       if on.isEmpty then some (.ok (.table [("data", values)], log)) else
       match ds.select on with
       | .error e => some (.error e)
       | .ok keyCols => some (.ok (.table (keyCols.toV ++ [("data", values)]), log))
+
+/-! ### `renames` (a dict parameter → column name) -/
+
+/-- `d[key] = xs`: in place when `key` is a column, else appended -/
+def Table.setCol (t : Table) (k : String) (xs : List Cell) : Table :=
+  if t.cols.contains k then t.map fun c => if c.1 == k then (k, xs) else c else t ++ [(k, xs)]
+
+/-- lines 85-92 of `_item` for `renames` a dict: `d[key] = d[renames[key]]` when `key in renames`
+(`KeyError` when the table has no such column).  The assignment is made on the caller's table. -/
+def applyRename (d : Table) (key : String) (renames : List (String × String)) : Res Table :=
+  match renames.find? (·.1 == key) with
+  | none => .ok d
+  | some kr => match d.col? kr.2 with
+    | some xs => .ok (d.setCol key xs)
+    | none => .error .key
+
+def renameInput (renames : List (String × String)) (kv : String × PInput) : Res (String × PInput) :=
+  match kv.2 with
+  | .table d => (applyRename d kv.1 renames).map fun d' => (kv.1, .table d')
+  | .scalar c => .ok (kv.1, .scalar c)
+
+/-- `join(inputs, on, renames, defaults)`: the renaming assignments, then `join` as above (both stages
+only ever raise `KeyError`, so doing all the assignments first does not change the outcome) -/
+def pdJoinR (inputs : List (String × PInput)) (on : List String) (renames : List (String × String))
+    (defaults : List (String × Cell)) : Option (Res Table) :=
+  match inputs.mapM (renameInput renames) with
+  | .error e => some (.error e)
+  | .ok inputs' => pdJoin inputs' on defaults
+
+/-- `perdictable(f, on, renames, defaults)(**inputs)`; `expiry` is an input of `join` like the others
+(a table given as `data` comes back with the assigned column when no row exists: the assignment
+was made on the caller's object) -/
+def perdictableR (f : List Cell → Val) (params on : List String) (renames : List (String × String))
+    (defaults : List (String × Cell)) (inputs : List (String × PInput)) (expiry : PInput) (today : Int)
+    (ifNone : Bool := false) : Option (Res (PResult × List (List Cell))) :=
+  match inputs.mapM (renameInput renames), renameInput renames ("expiry", expiry) with
+  | .ok inputs', .ok e' => perdictable f params on defaults inputs' e'.2 today ifNone
+  | .error e, _ => some (.error e)
+  | _, .error e => some (.error e)
 
 end Pyg
